@@ -113,8 +113,10 @@ def structure_selectors(tier):
         return _CACHE[key]
     types = (S.T('a'), S.T('b'), S.T('*'))
     atoms = tuple(('pc', p) for p in PSEUDOS)
-    c1 = [S.cp(t) for t in types] + [S.cp(t, a) for t in (None,) + types for a in atoms]
-    if tier != 'quick':
+    if tier == 'quick':
+        c1 = [S.cp(t) for t in types] + [S.cp(t, a) for t in (None, S.T('a')) for a in atoms]
+    else:
+        c1 = [S.cp(t) for t in types] + [S.cp(t, a) for t in (None,) + types for a in atoms]
         c1 += [S.cp(None, a, b) for a, b in itertools.combinations(atoms, 2)]
     out = [(x,) for x in S.complexes(c1, 2)]
     # comma lists of two simple alternatives
